@@ -10,6 +10,8 @@ W1  object level: in every assembled routine the hash dispatch reaches for algor
     (displacement + width) through a pointer loaded from job->auth_tag_output is within the smallest tag length that is both
     accepted for A and compatible with the comparisons of job->auth_tag_output_len_in_bytes against constants that hold at
     the store on every path (memory-cell constraint domain of the abstract interpreter)
+W3  routines whose vector stores to one destination family are all masked on the reference tree stay so (baseline of semantic
+    facts: function, argument the destinations are reached from)
 W2  C level: wherever job->auth_tag_output is handed to a callee together with a length parameter, or used as the
     destination of memcpy, the length is that job's auth_tag_output_len_in_bytes
 """
@@ -340,6 +342,84 @@ def run_w2(chk, P):
     chk.extra['w2_tag_pointer_passed_without_length'] = nolen
 
 
+# ---------------------------------------------------------------------------------------------- W3
+
+import json as _json, os as _os
+MASK_BASELINE = _os.path.join(_os.path.dirname(_os.path.dirname(_os.path.abspath(__file__))), 'data', 'masked_store_baseline.json')
+
+
+def masked_groups():
+    """{function: {pointer source: (masked vector stores, unmasked vector stores)}} — stores grouped by the argument register the
+    destination pointer comes from (directly, or loaded from the array / structure it points to)"""
+    out = {}
+    for rel, name, r in asmfacts.all_functions():
+        g = {}
+        for s in r['stores']:
+            b = s['base']
+            if not b or s['w'] < 16:
+                continue
+            if b[0] == 'L':
+                root = b
+                while root[0] == 'L':
+                    root = root[1]
+                if root[0] != 'E':
+                    continue
+                key = 'via:' + root[1]
+            elif b[0] == 'E':
+                key = 'arg:' + b[1]
+            else:
+                continue
+            m, u = g.get(key, (0, 0))
+            g[key] = (m + 1, u) if s.get('masked') else (m, u + 1)
+        if g:
+            out[name] = g
+    return out
+
+
+def run_w3(chk):
+    r = chk.rule('W3', 'a routine that writes one destination family (the buffers reached from one argument) only through masked vector '
+                       'stores on the reference tree still does: an unmasked vector store there writes a full vector into a shorter buffer',
+                 floor=30)
+    if not _os.path.exists(MASK_BASELINE):
+        chk.broken('masked-store baseline missing')
+        return
+    base = _json.load(open(MASK_BASELINE))['all_masked']
+    cur = masked_groups()
+    lines = {name: res['lines'] for _, name, res in asmfacts.all_functions()}
+    stores = {name: res['stores'] for _, name, res in asmfacts.all_functions()}
+    for name, keys in sorted(base.items()):
+        if name not in cur and name not in lines:
+            continue   # the routine no longer exists: binding rules report that
+        for key in keys:
+            m, u = cur.get(name, {}).get(key, (0, 0))
+            if u == 0:
+                r.ok('%s:%s' % (name, key), {'masked': m})
+                continue
+            # name the offending stores
+            for s in stores.get(name, []):
+                b = s['base']
+                if not b or s['w'] < 16 or s.get('masked'):
+                    continue
+                root = b
+                while root[0] == 'L':
+                    root = root[1]
+                k2 = ('via:' if b[0] == 'L' else 'arg:') + (root[1] if root[0] == 'E' else '?')
+                if k2 == key:
+                    r.bad('%s:%s@%#x' % (name, key, s['a']), lines[name].get(s['a'], name),
+                          '%s: unmasked %d-byte vector store to a destination reached from %s; every other store of this family is masked '
+                          '(%d of them): the full vector is written whatever the length' % (name, s['w'], key.split(':')[1], m))
+
+
+def write_mask_baseline():
+    cur = masked_groups()
+    allm = {n: sorted(k for k, (m, u) in g.items() if m >= 2 and u == 0) for n, g in cur.items()}
+    allm = {n: v for n, v in allm.items() if v}
+    with open(MASK_BASELINE, 'w') as f:
+        _json.dump({'note': 'routines whose vector stores to one destination family are all masked on the reference tree; '
+                            'python3 -m imbv.rules.c07 --write-baseline', 'all_masked': allm}, f, indent=0, sort_keys=True)
+    return sum(len(v) for v in allm.values())
+
+
 def run(chk):
     P = cf.Program()
     M = build.macros()
@@ -381,7 +461,10 @@ def run(chk):
     routines = hash_routines(P, M)
     run_w1(chk, P, union, routines)
     run_w2(chk, P)
+    run_w3(chk)
 
 
 if __name__ == '__main__':
-    pass
+    import sys as _sys
+    if '--write-baseline' in _sys.argv:
+        print(write_mask_baseline())
